@@ -32,6 +32,8 @@ def run(ctx):
   rule_roots(ctx)
   rule_cf(ctx)
   rule_bias(ctx)
+  rule_pure(ctx)
+  ctx.expect("R-C19-PURE", 40, "every function of the helper modules")
   ctx.expect("R-C19-BIAS", 2, "statistic + summand count")
   ctx.expect("R-C19-HENSEL", 8, "two loops x (base, identity, exponent, reduction)")
   ctx.expect("R-C19-SQRT", 3, "roots, solvability, small k")
@@ -515,3 +517,36 @@ def rule_bias(ctx):
     ctx.record(R, f.where, "number of uniform summands", same and okr, ("UniformSumCdf is evaluated for %r summands (%s) = number of terms in T; its value is returned" % (cval, how)) if same and okr else
                ("UniformSumCdf is evaluated for %r summands (%s) but T adds %r terms: the p-value is taken from the wrong Irwin-Hall distribution" % (cval, how, n_terms)
                 if not same else "the p-value returned is not the UniformSumCdf value"))
+
+
+# ------------------------------------------------------------------ PURE: the helpers are functions of their arguments
+PURE_MODULES = ("ntheory_util", "linalg_util", "small_roots", "randomness_tests.lattice_suite", "randomness_tests.util")
+
+
+def rule_pure(ctx):
+  """"equal their definitions" for every call history: no helper writes state that outlives the call, except a memo whose key holds every
+  input of the stored value (shared machinery with R-C12-PURE)."""
+  R = "R-C19-PURE"
+  repo = ctx.repo
+  from pcstatic import effects
+  from . import c12
+  wt = ast.parse(c12._WITNESS)
+  if len(effects.persistent_writes(wt.body[1], effects.module_vars(wt))) != 4:
+    raise Incomplete("effect scanner self-check failed", "pcstatic.effects")
+  for ms in PURE_MODULES:
+    m = repo.mod(ms)
+    mv = effects.module_vars(m.tree)
+    for fn in repo.all_funcs(include_examples=False):
+      if fn.module is not m:
+        continue
+      probs = []
+      memo = 0
+      for node, txt in effects.persistent_writes(fn.node, mv):
+        why = c12.memo_sound(repo, fn, node)
+        if why is True:
+          memo += 1
+        else:
+          probs.append("line %d: %s%s" % (getattr(node, "lineno", 0), txt, "; " + why if why else ""))
+      probs += ["decorator %s may keep state between calls" % d for d in effects.impure_decorators(fn.node)]
+      ctx.record(R, fn.where, "no state outlives the call", not probs, "; ".join(probs) if probs else
+                 "no global declaration, no write to a module-level container or attribute, no mutable default argument written" + (" (%d sound memo store(s))" % memo if memo else ""))
